@@ -291,6 +291,11 @@ func runRouting(qIndex, inflow, lateral, initialFluxMax, storage, area, netEvapR
 	}
 	//SIndex = SIndex - outflow
 
+	// Report the storage actually held at the end of the step: when the reach
+	// cannot fill to the index storage there is no outflow and the storage is
+	// what the water balance leaves, not the index storage.
+	SIndex = math.Min(SIndex, newStorage)
+
 	// if corrected {
 	// 	fmt.Printf("massBalance after correction = %f, SIndex=%f, outflow=%f\n", massBalance, SIndex, outflow)
 	// }
